@@ -15,6 +15,7 @@ pub fn shrink(
     let sig: (String, Option<Kind>) = first.signature();
     let mut attempts = 0u32;
     let mut best: Vec<Event> = history[..=first.step.min(history.len() - 1)].to_vec();
+    #[allow(unused_assignments)]
     let mut best_v = first.clone();
     let o = ExecOpts {
         prop: opts.prop,
